@@ -43,7 +43,9 @@ ROOTS = ['@T/root', '@T/root/', 'root', './root/', 'rootx/../root',
          'cd=root;',
          # a root directory that does not exist (a per-user directory nobody created yet; a relative root after a chdir): nothing is
          # inside it - in particular not the files of the directory it would be in
-         '@T/root/nouser', 'cd=rootx;static']
+         '@T/root/nouser', 'cd=rootx;static',
+         # a root whose name ends in a backslash (an ordinary character on POSIX): a directory of its own, not the sibling without it
+         '@T/root\\', 'root\\/']
 
 
 def download_for(name, T):
